@@ -139,6 +139,7 @@ def parse_fmap_data(fdata: bytes) -> List[FontInfo]:
     logging.debug("--------------------------")
     
     # Parse font data
+    names_size = 0
     for i in range(nfonts):
         logging.debug("--------------------------")        
         idx = metadata[i]['displacement']
@@ -146,7 +147,15 @@ def parse_fmap_data(fdata: bytes) -> List[FontInfo]:
         idx += 4
         logging.debug("nchars = %s", nchars)   
         
-        font_name = basic_data[idx:idx+nchars].decode(get_encoding())
+        name_data = basic_data[idx:idx+nchars]
+        names_size += len(name_data)
+        if names_size > len(basic_data):
+            # Font names never overlap: together they cannot be longer than
+            # the area they are stored in (otherwise the decoded output
+            # grows with the square of the input size)
+            raise ValueError("Overlapping font names!")
+        
+        font_name = name_data.decode(get_encoding())
         idx = idx+nchars       
         logging.debug("font_name = %s", font_name)
         
